@@ -111,6 +111,11 @@ func Load(dir string, overlay map[string][]byte, tags string) (*Prog, error) {
 			pkgs, cur = pkgs2, ov2
 			notes = append(notes, n2...)
 		}
+		if os.Getenv("SA_INLINE_DUMP") != "" {
+			for f, b := range cur {
+				os.WriteFile("/tmp/sa_inline_dump_"+strings.ReplaceAll(strings.TrimPrefix(f, dir+"/"), "/", "_"), b, 0o644)
+			}
+		}
 	}
 	p, err := build(dir, pkgs)
 	if p != nil {
